@@ -26,10 +26,12 @@ def prim_params(of):
 
 
 class Builder:
-    def __init__(self, style="proc", setattr_conns=False):
+    def __init__(self, style="proc", setattr_conns=False, dict_anon=False, flip=False):
         self.mcache, self.bcache, self.ecache = {}, {}, {}
         self.style = style
         self.setattr_conns = setattr_conns
+        self.dict_anon = dict_anon  # anonymous bundles written in dict shorthand
+        self.flip = flip            # every bundle instance of a module is created flipped (connectivity must not care)
 
     def target(self, of):
         if isinstance(of, Mod):
@@ -74,7 +76,8 @@ class Builder:
             other = h.Module(name="Other")
             return other.add(h.Signal(name="stolen", width=e.w))
         if isinstance(e, Anon):
-            return h.AnonymousBundle(**{k: self.expr(m, v, ncs) for k, v in e.members})
+            d = {k: self.expr(m, v, ncs) for k, v in e.members}
+            return d if self.dict_anon else h.AnonymousBundle(**d)
         raise TypeError(e)
 
     def fill(self, m, md: Mod):
@@ -83,7 +86,7 @@ class Builder:
         for n, w in md.sigs:
             m.add(h.Signal(name=n, width=w))
         for n, bd, is_port in md.buns:
-            m.add(h.BundleInstance(name=n, of=build_bundle(bd, self.bcache), port=is_port))
+            m.add(h.BundleInstance(name=n, of=build_bundle(bd, self.bcache), port=is_port, flipped=self.flip))
         for inst in md.insts:  # create all instances first so port references can point forward
             t = self.target(inst.of)
             if inst.kind == "inst":
@@ -158,5 +161,5 @@ class Builder:
         return m
 
 
-def build(top: Mod, style="proc", setattr_conns=False):
-    return Builder(style, setattr_conns).bmod(top)
+def build(top: Mod, style="proc", setattr_conns=False, dict_anon=False, flip=False):
+    return Builder(style, setattr_conns, dict_anon, flip).bmod(top)
